@@ -409,6 +409,10 @@ def b_instances(tier):
                         [('match', 2)], {}))
         out.append(('line2', g2, dict(fam='simple_n', T=2, ne=True, **NOSYM), [('match', 2)], {}))
         out.append(('oneway3', g3, dict(fam='simple_n', T=2, ne=False, goingback=True, **NOSYM), [('match', 2)], {}))
+        # a repeated observation (stationary vehicle): observation 1 is the very same point as observation 0
+        for fam in ('simple', 'dist'):
+            out.append(('oneway2', NAMED['oneway2'], dict(fam=fam, T=3, ne=False, **NOSYM), [('sameobs', 1, 0), ('match', 3)], {}))
+            out.append(('oneway3', g3, dict(fam=fam, T=3, ne=True, **NOSYM), [('sameobs', 2, 1), ('match', 3)], {}))
         out.append(('oneway3', g3, dict(fam='simple', T=2, ne=True, noise_ne=0.5, sym_nelf=True, **NOSYM), [('match', 2)], {}))
     else:
         graphs = [(n, g) for n, g in library(3, named=('fork', 'oneway4', 'path4')) if len([1 for u in g for v in g[u]]) <= 4]
